@@ -501,7 +501,9 @@ func c14LoadSeeds() {
 		[]byte(refage.AuthorizedKey("ssh-ed25519", refage.SSHWireEd25519(p.Ed[0].Public().(ed25519.PublicKey)))+" comment"),
 		[]byte(refage.AuthorizedKey("ssh-rsa", refage.SSHWireRSA(&p.RSA[0].PublicKey))),
 		[]byte(refage.AuthorizedKey("ssh-rsa", refage.SSHWireRSA(&p.RSASmall.PublicKey))),
-		[]byte(ecdsaAuthorizedKey()))
+		[]byte(ecdsaAuthorizedKey()),
+		// key blobs whose leading length field is enormous, negative as a 32-bit int, or longer than the blob
+		[]byte("ssh-foo /////w=="), []byte("ssh-rsa gAAAAA=="), []byte("ssh-ed25519 /////wAAAAA="), []byte("ssh-ed25519 f////w=="), []byte("ssh-rsa AAAAgA=="), []byte("ssh-dss AAAAB3NzaC1kc3P/////"))
 }
 
 type c14Bytes struct {
@@ -542,7 +544,17 @@ func targetCLI(c c14Bytes, st *stats.Run) error {
 	default:
 		prog, args = "age-keygen", []string{"-y", "data"}
 	}
+	arch := "native"
+	if b386 := os.Getenv("VERIF_BIN386"); b386 != "" && c.Max%2 == 0 {
+		// the same command built for a 32-bit platform
+		bin, arch = b386, "386"
+	}
 	code, out, stderr := runCLI(dir, []string{"PATH=/nonexistent", "HOME=" + dir}, nil, filepath.Join(bin, prog), args...)
+	if code == -3 || (arch == "386" && code == -1 && strings.Contains(stderr, "exec format")) {
+		st.Label("cli:386-binary-cannot-run-here")
+		return nil
+	}
+	st.Label("cli:arch=" + arch)
 	if code == -2 {
 		return pbt.Failf("C14/hang:"+c.Target, "%s %v did not finish within its time limit on a %d-byte input", prog, args, len(c.Data))
 	}
@@ -635,6 +647,14 @@ func c14GenStanzas(t *rapid.T) c14Stanzas {
 		}
 		body := hx.PRG(rapid.Uint64Range(0, 5).Draw(t, "bs"), rapid.SampledFrom([]int{0, 15, 16, 17, 31, 32, 33, 255, 256, 257, 384, 512}).Draw(t, "bl"))
 		c.Stanzas = append(c.Stanzas, refage.Stanza{Type: ty, Args: args, Body: body})
+	}
+	if rapid.IntRange(0, 4).Draw(t, "wellFormedScrypt") == 0 {
+		// several well-formed passphrase stanzas, each within the configured maximum
+		c.Max = rapid.IntRange(9, 12).Draw(t, "maxBig")
+		c.Stanzas = c.Stanzas[:0]
+		for i, k := 0, rapid.IntRange(2, 8).Draw(t, "nscrypt"); i < k; i++ {
+			c.Stanzas = append(c.Stanzas, refage.Stanza{Type: "scrypt", Args: []string{refage.B64(hx.PRG(uint64(i), 16)), fmt.Sprint(c.Max - i%2)}, Body: hx.PRG(uint64(100+i), 32)})
+		}
 	}
 	return c
 }
